@@ -43,6 +43,10 @@ CHECKS = {
          "Genuine proofs, keys and witnesses of generated circuits on all curves and both backends are mutated at the byte level (length prefixes, truncation at and inside every slot, garbage, bit flips, zeros; compressed and raw) and at the object level (lists resized / nil, witnesses of wrong length or field, headers disagreeing with the payload); no call may panic, byte counts must stay within the input, and structurally inconsistent inputs must be reported as errors.",
          "Length prefixes are capped at payload/elemsize+64 because of open finding F05 (fatal out-of-memory inside gnark-crypto's decoders, probed in a memory-limited child process on every run); arbitrary byte strings are reached only through mutations of genuine encodings.",
          "DESIGN.md §3 C08"),
+ "C14": ("exhaustive small-scope enumeration over F47 + boundary-biased property-based testing + hint adversary (rapid)",
+         "Comparison (generic and bounded, every admissible bound), Mux/Map/Slice/Partition/Decoder, bitslice and uints gadgets are enumerated exhaustively over the 47-element field (test engine, R1CS, SCS) and sampled boundary-biased on curve fields against integer oracles written from the doc comments (including the bounded comparator's documented zones); out-of-domain selectors must be unsatisfiable where promised; every gadget hint is rewritten (flip, zero, rotate, alias, two-hot, ...) and no wrong public output may become satisfiable.",
+         "uints has no per-method documentation: plain w-bit arithmetic on in-range inputs is assumed; a full CSP search over F47 is replaced by enumerating every value / one-hot / two-hot / step vector of the gadget hints.",
+         "DESIGN.md §3 C14"),
 }
 
 PENDING = {}
